@@ -67,6 +67,53 @@ for f in sorted(glob.glob("evidence/C*.json")):
                ("%s / %s" % (c.get("states"), c.get("transitions"))) if "states" in c else "-", len(c.get("known_findings_hit", [])),
                c.get("exhaustive"), e.get("wall_s")))
 out.append("")
+# thorough tier: results of the last thorough run of each check are kept in thorough_log.json (committed); new logs under build/thorough/ update it
+tlog = json.load(open("thorough_log.json")) if os.path.exists("thorough_log.json") else {}
+for f in sorted(glob.glob("build/thorough/C*.json")):
+    try:
+        e = json.load(open(f))
+    except Exception:
+        continue
+    if e.get("tier") != "thorough":
+        continue
+    pid = e["property_id"]
+    c = e["coverage"]
+    txt = open(f[:-5] + ".txt").read() if os.path.exists(f[:-5] + ".txt") else ""
+    cpu = open(f[:-5] + ".time").read().split() if os.path.exists(f[:-5] + ".time") else []
+    tlog[pid] = {"evaluations": c.get("evaluations"), "distinct": c.get("distinct_nontrivial"), "states": c.get("states"), "transitions": c.get("transitions"),
+                 "exhaustive": c.get("exhaustive"), "caps": c.get("caps") or c.get("capped") or [], "violations": e.get("violations"),
+                 "known_hit": len(c.get("known_findings_hit", [])), "wall_s": e.get("wall_s"), "cpu_user_s": (cpu[1] if len(cpu) > 1 else ""),
+                 "exit": ("rc=0" in txt and 0) if "rc=" in txt else None, "bounds": str(c.get("bounds", ""))[:300]}
+json.dump(tlog, open("thorough_log.json", "w"), indent=1, sort_keys=True)
+out.append("### 11.7 Thorough tier: last complete run of each check (generated from thorough_log.json)\n")
+out.append("Runs were made with VF_NPROC=8 on the shared, heavily loaded sandbox (load average 40-60), so wall times are several times those of an idle 16-core machine; CPU seconds are the better measure.\n")
+out.append("| Property | evaluations | distinct non-trivial | states / transitions | new violations | known findings hit | exhaustive in bound | wall s | user CPU |")
+out.append("|---|---|---|---|---|---|---|---|---|")
+for pid in sorted(tlog):
+    t = tlog[pid]
+    out.append("| %s | %s | %s | %s | %s | %s | %s | %s | %s |" % (pid, t["evaluations"], t["distinct"], ("%s / %s" % (t["states"], t["transitions"])) if t.get("states") else "-",
+               t["violations"], t["known_hit"], t["exhaustive"], t["wall_s"], t["cpu_user_s"]))
+out.append("")
+# as-built summary per property from the check modules themselves
+import importlib, sys
+sys.path.insert(0, os.getcwd())
+ready = set(open("tools/ready.txt").read().split())
+out.append("### 11.8 As built, per property (generated from the check modules: LEVEL, CLAIM, RULE)\n")
+out.append("`claimed` = listed in MANIFEST.checks; the bound text is the module's RULE (what exactly is enumerated, quick/thorough), truncated here — the full text, the assumptions and the trusted base are in evidence/<id>.json.\n")
+out.append("| Property | claimed | level | explorer | deciding technique | enumerated bound (RULE, truncated) |")
+out.append("|---|---|---|---|---|---|")
+for n in range(1, 41):
+    pid = "C%02d" % n
+    try:
+        m = importlib.import_module("vf.checks.c%02d" % n)
+    except Exception as ex:  # noqa
+        out.append("| %s | no | - | - | - | check module missing (%s) |" % (pid, type(ex).__name__))
+        continue
+    claim = getattr(m, "CLAIM", {})
+    rule = " ".join(str(getattr(m, "RULE", "")).split())
+    out.append("| %s | %s | %s | %s | %s | %s |" % (pid, "yes" if pid in ready else "no", getattr(m, "LEVEL", "-"), str(claim.get("engine", "-")).replace("|", "/"),
+               str(claim.get("technique", "-")).replace("|", "/"), (rule[:420] + (" …" if len(rule) > 420 else "")).replace("|", "/")))
+out.append("")
 text = "\n".join(out)
 s = open("DESIGN.md").read()
 a, b = "<!-- AUTOGEN-BEGIN -->", "<!-- AUTOGEN-END -->"
